@@ -51,6 +51,27 @@ func buildView(c c11Case, dir string) (fsutil.FS, string, error) {
 	switch c.Under {
 	case "mem":
 		base = memfs.New(c.Tree)
+	case "multi":
+		// every top-level directory of the tree is a sub-root of a composite (its own in-memory FS); the filter sits
+		// on top of the composite
+		var dirs []fsutil.Dir
+		for _, n := range c.Tree {
+			if strings.Contains(n.Path, "/") || n.Kind != fsmodel.Dir {
+				continue
+			}
+			var sub fsmodel.Tree
+			for _, m := range c.Tree.Under(n.Path) {
+				if m.Path != n.Path {
+					m.Path = strings.TrimPrefix(m.Path, n.Path+"/")
+					sub = append(sub, m)
+				}
+			}
+			st := memfs.StatOf(n, nil)
+			dirs = append(dirs, fsutil.Dir{Stat: st, FS: memfs.New(sub)})
+		}
+		if base, err = fsutil.SubDirFS(dirs); err != nil {
+			return nil, "", err
+		}
 	default:
 		if base, err = fsutil.NewFS(dir); err != nil {
 			return nil, "", err
@@ -115,7 +136,7 @@ func judgeC11(c c11Case) (string, string) {
 	srcDir, dst := filepath.Join(root, "src"), filepath.Join(root, "dst")
 	os.Mkdir(srcDir, 0755)
 	os.Mkdir(dst, 0755)
-	if c.Under != "mem" {
+	if c.Under != "mem" && c.Under != "multi" {
 		if err := fsmodel.Materialize(c.Tree, srcDir); err != nil {
 			return "infra", err.Error()
 		}
@@ -442,6 +463,25 @@ func runC11(r *evid.Run) {
 						}
 					}
 				}
+			}
+		}
+	}
+	// a filter on top of a composite of three sub-roots: patterns (and the walk's pruning) that drop one of them
+	{
+		T := fsmodel.T0
+		var multi fsmodel.Tree
+		for i, r := range []string{"p", "q", "r"} {
+			multi = append(multi, fsmodel.Node{Path: r, Kind: fsmodel.Dir, Perm: 0755, Mtime: T + int64(i)},
+				fsmodel.Node{Path: r + "/a", Kind: fsmodel.Dir, Perm: 0755, Mtime: T + 10},
+				fsmodel.Node{Path: r + "/a/x", Kind: fsmodel.File, Perm: 0644, Mtime: T + 11, Data: fsmodel.Content(30+i, 5), HL: i + 1},
+				fsmodel.Node{Path: r + "/y", Kind: fsmodel.File, Perm: 0644, Mtime: T + 11, Data: fsmodel.Content(30+i, 5), HL: i + 1},
+				fsmodel.Node{Path: r + "/z", Kind: fsmodel.File, Perm: 0644, Mtime: T + 12, Data: fsmodel.Content(40+i, 4)})
+		}
+		multi.Sort()
+		mp := []string{"p", "q", "r", "q/a", "p/a/x", "*/y", "!q", "r/z", "**/x"}
+		for _, in := range patternLists(2, mp) {
+			for _, ex := range patternLists(1, mp) {
+				cases = append(cases, c11Case{Tree: multi, Include: in, Exclude: ex, Under: "multi"})
 			}
 		}
 	}
